@@ -79,6 +79,19 @@ class Merge12(Merge11):
     SEED = 12
 
 
+class Moody(Tree):
+    """resolver that raises AttributeError ITSELF when the wanted state is 13, and merges otherwise:
+    a failing call must not make the class unresolvable for later conflicts"""
+    CID = 15
+    SEED = 15
+
+    def _p_resolveConflict(self, old, committed, new):
+        _log(self.CID, old, committed, new)
+        if isinstance(new, int) and new == 13:
+            raise AttributeError('resolver looked up a missing attribute on purpose')
+        return (self.SEED, (old, (committed, new)))
+
+
 class NewArgs(Merge11):
     """class with `__getnewargs__`: references to its instances are pickled as a bare oid and its
     records carry a (class, args) tuple as meta data"""
@@ -109,6 +122,7 @@ TABLE = {
     12: ('c10_classes', 'Merge12', 1, 1, 'v12'),
     13: ('c10_classes', 'NewArgs', 1, 1, 'v13'),
     14: ('c10_classes', 'PlainNewArgs', 1, 0, 'e'),
+    15: ('c10_classes', 'Moody', 1, 1, 'm15'),
     9: ('c10_classes', 'Gone', 0, 0, 'e'),
     8: ('nosuchmodule_c10', 'Gone', 0, 0, 'e'),
     20: ('ZODB.tests.MinPO', 'MinPO', 1, 0, 'e'),
